@@ -565,6 +565,17 @@ func C13(x *Ctx) []Violation {
 					if stems[a] > 1 || quals[a] || reservedGenerated[a] || gen.IsKeyword(a) || typeNames[a] {
 						collision = true
 					}
+					// two parameters whose record fields would be equal (id / Id) collide as well
+					for k := range preds {
+						if k == j {
+							continue
+						}
+						for _, b := range preds[k].alts {
+							if b != "" && a != "" && ExportedModel(b) == ExportedModel(a) {
+								collision = true
+							}
+						}
+					}
 				}
 				// an unasserted neighbour may have produced any name, including ours
 				for k := range preds {
